@@ -6,15 +6,15 @@
 // i.e. membership in every relation closed under the rules, hence in the least one.  (No rule lets
 // a split take the branch the condition does not select, or a loop continue on anything but 1.)
 // `trace` is the sequence of operations the decoder records for the run (C13).
-pub struct PState { pub s: Seq<Felt>, pub g: Regs }
+pub struct PState { pub s: Seq<Felt>, pub g: Regs, pub m: Mem }
 
 /// one more cycle, nothing else changes (JOIN / END / SPAN / RESPAN ... rows)
 pub open spec fn tick(p: PState) -> PState {
-    PState { s: p.s, g: Regs { clk: p.g.clk + 1, fmp: p.g.fmp, ctx: p.g.ctx, in_syscall: p.g.in_syscall, fn_hash: p.g.fn_hash } }
+    PState { s: p.s, g: Regs { clk: p.g.clk + 1, fmp: p.g.fmp, ctx: p.g.ctx, in_syscall: p.g.in_syscall, fn_hash: p.g.fn_hash }, m: p.m }
 }
 /// one cycle in which the top of the stack is dropped (SPLIT / LOOP / REPEAT / END-of-loop rows)
 pub open spec fn drop_tick(p: PState) -> PState {
-    PState { s: sem_drop(p.s), g: tick(p).g }
+    PState { s: sem_drop(p.s), g: tick(p).g, m: p.m }
 }
 pub uninterp spec fn exec_rel(b: CodeBlock, p0: PState, p1: PState, tr: Seq<Operation>) -> bool;
 /// iterations of a loop body: starts with a body execution, ends when the body leaves 0 on top
@@ -25,6 +25,7 @@ pub open spec fn step_ok(op: Operation, p0: PState, p1: PState) -> bool {
     &&& p1.g.clk == p0.g.clk + 1
     &&& !is_control(op)
     &&& (op_pre(op, p0.s) ==> op_rel(op, p0.s, p0.g, p1.s, p1.g))
+    &&& mem_rel(op, p0.s, p0.g.ctx, p0.m, p1.s, p1.m)
 }
 
 #[verifier::external_body]
